@@ -12,9 +12,12 @@ def program(a):
     R = "()" if a["m_unit"] else "u64"
     ty = f"{quals}fn(u64, u64) -> {R}"
     opts = []
-    if a["when"]: opts.append("when: a == 7 && b == 1")
-    if a["assign"]: opts.append("assign: { ASSIGNS.fetch_add(1, SeqCst); SEEN.store(a as usize, SeqCst); A_STAMP.store(CLOCK.fetch_add(1, SeqCst) + 1, SeqCst); }")
-    if a["returns"]: opts.append("returns: { EVALS.fetch_add(1, SeqCst); R_STAMP.store(CLOCK.fetch_add(1, SeqCst) + 1, SeqCst); 9000 + a + EVALS.load(SeqCst) as u64 }")
+    # in the arms for `unsafe fn` the user's fragments land in the body of an unsafe fn: operations that need an unsafe context (here: reading
+    # through a raw pointer) are well-typed there without a block of their own (edition 2021)
+    ua = "std::ptr::read(&a as *const u64)" if a["m_unsafe"] else "a"
+    if a["when"]: opts.append(f"when: {ua} == 7 && b == 1")
+    if a["assign"]: opts.append(f"assign: {{ ASSIGNS.fetch_add(1, SeqCst); SEEN.store({ua} as usize, SeqCst); A_STAMP.store(CLOCK.fetch_add(1, SeqCst) + 1, SeqCst); }}")
+    if a["returns"]: opts.append(f"returns: {{ EVALS.fetch_add(1, SeqCst); R_STAMP.store(CLOCK.fetch_add(1, SeqCst) + 1, SeqCst); 9000 + {ua} + EVALS.load(SeqCst) as u64 }}")
     if a["times"]: opts.append(f"times: {N}")
     call = "unsafe { f(a, 1) }" if a["m_unsafe"] else "f(a, 1)"
     body = "{ std::hint::black_box((a, b)); }" if a["m_unit"] else "{ std::hint::black_box(b); 100 + a }"
